@@ -107,10 +107,7 @@ def not_implemented(O):
                         lambda obs, s: item_judge(False, "signExt")(obs, s), extra=cls)
 
 
-@obligation("C10/unknown-variable", profiles=("dev",),
-            desc="Expr::eval, Variable arm: a name that resolves to nothing at run time (a variable assigned only on a "
-                 "path that was not executed) is an error item, not a panic; a Z/X output read is an error item")
-def unknown_variable(O):
+def variable_arm(O, R):
     m = O.mir
     fn = O.find("::eval", file="expr.rs", param0="&Expr")
     eng = O.engine()
@@ -119,8 +116,6 @@ def unknown_variable(O):
     tag = eng.tag_of(eng.deref(initial(fn, 1)), None)
     cls = [tag == bv64(m.vidx("Expr", "Variable"))]
     O.witness(paths, "Variable arm", cls)
-    sc = [Scenario("A\nwhile(0)\nlet x = 1;\nend while\n(x)\n", [("in", "A", 8, 0)], note="let in zero-trip while")]
-    judge = lambda obs, s: item_judge(True, "use of a never-assigned variable")(obs, s)
     for p in paths:
         eng.focus(p)
         res, _ = O.solve(list(p.pc) + cls, want_model=False)
@@ -128,11 +123,10 @@ def unknown_variable(O):
             continue
         gets = p.calls(r"EvalContext::get")
         if p.outcome == "panic":
-            O.fail_path(p, "Variable arm panics: %s" % p.detail, {"arm": "Variable"}, sc, judge, extra=cls)
+            R.fail(O, p, "Variable arm panics: %s" % p.detail, extra=cls)
             continue
         if p.outcome != "return" or len(gets) != 1:
-            O.fail_path(p, "Variable arm does not look the name up exactly once", {"arm": "Variable"}, sc, judge,
-                        extra=cls)
+            R.fail(O, p, "Variable arm does not look the name up exactly once", extra=cls)
             continue
         got = gets[0].ret   # Option<OutputValue>
         rtag = eng.tag_of(p.ret, None)
@@ -141,11 +135,93 @@ def unknown_variable(O):
         is_val = eng.tag_of(ov, None) == bv64(m.vidx("OutputValue", "Value"))
         val = eng.scalar(eng.field(eng.downcast(ov, "Value"), 0, "i64"))
         rv = eng.scalar(eng.field(eng.downcast(p.ret, "Ok"), 0, "i64"))
-        O.prove(p, z3.And(z3.Implies(z3.And(is_some, is_val), z3.And(rtag == bv64(0), rv == val)),
-                          z3.Implies(z3.Not(z3.And(is_some, is_val)), rtag == bv64(1))),
-                "Variable arm: Ok(n) iff the lookup gave Value(n), otherwise Err", {"arm": "Variable"},
-                [Scenario("A Y\n(Y)\n", [("in", "A", 8, 0), ("out", "Y", 8)], default_answer=["Z"])], judge,
-                extra=cls)
+        R.prove(O, p, z3.And(z3.Implies(z3.And(is_some, is_val), z3.And(rtag == bv64(0), rv == val)),
+                             z3.Implies(z3.Not(z3.And(is_some, is_val)), rtag == bv64(1))),
+                "Variable arm: Ok(n) iff the lookup gave Value(n), otherwise Err", extra=cls)
+
+
+def runtime_battery():
+    S = [("in", "A", 8, 0), ("out", "Y", 8), ("out", "n", 8)]
+    b = [Scenario("A\nwhile(0)\nlet x = 1;\nend while\n(x)\n", [("in", "A", 8, 0)], note="let in zero-trip while"),
+         Scenario("A Y\n(Y)\n", S, default_answer=["Z", 0], note="Z read"),
+         Scenario("A Y n\nrepeat(2) (n) X X\n", S, default_answer=[0, "Z"], max_rows=10,
+                  note="repeat counter named like a Z output"),
+         Scenario("A Y n\nloop(Y,2)\n(Y) X X\nend loop\n", S, default_answer=["X", 0], max_rows=10,
+                  note="loop counter named like an X output"),
+         Scenario("A Y n\nrepeat(2) 1 X X\n", S, default_answer=[0, "Z"], max_rows=10,
+                  note="repeat whose counter is never read, device output n is Z"),
+         Scenario("A Y n\nloop(Y,3)\n1 X X\nend loop\n2 X X\n", S, default_answer=["X", 0], max_rows=10,
+                  note="loop whose counter is never read, device output Y is X"),
+         Scenario("A Y n\nloop(Y,3)\n1 X X\nend loop\n2 X X\n", S, default_answer=[0, 0], max_rows=10,
+                  note="loop counter named like a constant numeric output"),
+         Scenario("A Y\n(%s %% (0-1)) X\n(%s / (0-1)) X\n" % (lit(-(1 << 63)), lit(-(1 << 63))), S, default_answer=[0, 0],
+                  note="MIN % -1 and MIN / -1"),
+         Scenario("A Y\n(1 << 64) X\n(1 >> 65) X\n(9223372036854775807 + 1) X\n(-%s) X\n" % lit(-(1 << 63)), S,
+                  default_answer=[0, 0], note="overflowing arithmetic"),
+         Scenario("A B C Y\nX X X 1\n", [("in", "A", 1, 0), ("in", "B", 1, 0), ("in", "C", 1, 0), ("out", "Y", 8)],
+                  default_answer=[1], note="three X inputs"),
+         Scenario("A B C D Y\nX X X X 1\nC X X 0 X\n", [("in", "A", 1, 0), ("in", "B", 1, 0), ("in", "C", 1, 0),
+                                                       ("in", "D", 1, 0), ("out", "Y", 8)],
+                  default_answer=[1], note="four X inputs, then C with X"),
+         ]
+    return b
+
+
+def runtime_judge_one(o, sc):
+    if any(l.startswith("TRUNCATED") for l in o.lines):
+        return "the run does not terminate (%s)" % sc.note
+    return None
+
+
+runtime_judge = no_panic_judge(runtime_judge_one)
+
+
+@obligation("C10/unknown-variable", profiles=("dev",),
+            desc="Expr::eval, Variable arm: a name that resolves to nothing at run time (a variable assigned only on a "
+                 "path that was not executed) is an error item, not a panic; a Z/X output read is an error item")
+def unknown_variable(O):
+    from . import dri
+    variable_arm(O, dri.Rep({"arm": "Variable"}, runtime_battery(), runtime_judge))
+
+
+@obligation("C10/arith-no-panic", profiles=("dev", "release"),
+            desc="BinOp::eval and UnaryOp::eval never panic, for any operator and any pair of i64 operands")
+def arith_no_panic(O):
+    m = O.mir
+    for suffix, p0, enum in (("::eval", "&BinOp", "BinOp"), ("::eval", "&UnaryOp", "UnaryOp")):
+        fn = O.find(suffix, file="expr.rs", param0=p0)
+        eng = O.engine()
+        paths = O.explore(eng, fn)
+        tag = eng.tag_of(eng.deref(initial(fn, 1)), None)
+        a = eng.scalar(initial(fn, 2))
+        b = eng.scalar(initial(fn, 3)) if enum == "BinOp" else None
+        O.witness([p for p in paths if p.outcome == "return"], "%s::eval returns" % enum)
+        for p in paths:
+            if p.outcome != "panic":
+                continue
+
+            def facts(mod, enum=enum):
+                k = mval(mod, tag, False)
+                name = m.enums[enum][k] if k < len(m.enums[enum]) else "?"
+                return {"op": name, "a": mval(mod, a), "b": mval(mod, b) if b is not None else None}
+
+            def scen(mod, enum=enum):
+                f = facts(mod)
+                if enum == "BinOp" and f["op"] in C08.OPS:
+                    return [C08.expr_scenario("%s %s %s" % (lit(f["a"]), C08.OPS[f["op"]], lit(f["b"])))]
+                if enum == "UnaryOp" and f["op"] in C08.UNOPS:
+                    return [C08.expr_scenario("%s%s" % (C08.UNOPS[f["op"]], lit(f["a"])))]
+                return []
+            O.fail_path(p, "%s::eval panics: %s" % (enum, p.detail), facts, scen,
+                        lambda obs, sc: item_judge(False, "arithmetic")(obs, sc))
+
+
+@obligation("C10/counter-lookup", profiles=("dev",),
+            desc="EvalContext::get gives variables precedence over outputs, so a loop counter is always read back as "
+                 "the number the interpreter stored (the invariant behind EndIterateInner's unwrap/expect)")
+def counter_lookup(O):
+    from . import C04, dri
+    C04.ctx_get(O, dri.Rep({"family": "counter"}, runtime_battery(), runtime_judge))
 
 
 @obligation("C10/loop-counter", profiles=("dev", "release"),
